@@ -9,6 +9,7 @@
 #include "../engine/mc.hpp"
 
 #include <cstdlib>
+#include <functional>
 #include <map>
 #include <optional>
 #include <set>
@@ -517,14 +518,22 @@ inline std::string token_class(const Decl& D, const std::string& t)
     {
         if (k.body.size() == 1)
             return "S[" + kind(D.by_short(k.body)) + "]" + v;
-        std::multiset<std::string> ks;
+        // set of member kinds; a kind whose letter occurs more than once is marked with '*'
+        std::map<std::string, int> ks;
+        std::map<char, int> seen;
         for (char c : k.body)
-            ks.insert(kind(D.by_short(std::string(1, c))));
+        {
+            auto kd = kind(D.by_short(std::string(1, c)));
+            if (seen[c]++ && kd != "unk")
+                ks[kd] = 2;
+            else if (!ks.count(kd))
+                ks[kd] = 1;
+        }
         std::string s = "B[";
         bool first = true;
         for (auto& x : ks)
         {
-            s += (first ? "" : "+") + x;
+            s += (first ? "" : "+") + x.first + (x.second > 1 ? "*" : "");
             first = false;
         }
         return s + "]" + v;
@@ -676,8 +685,12 @@ inline Res snapshot(const Decl& D, const nitro::options::arguments& args)
     return r;
 }
 
+// optional observer called with the live arguments object of a successful parse
+using OnAccept = std::function<void(const nitro::options::arguments&, const Res&)>;
+
 // run parse(argc, argv) on an existing parser object
-inline Res run_on(nitro::options::parser& p, const Decl& D, const std::vector<std::string>& av)
+inline Res run_on(nitro::options::parser& p, const Decl& D, const std::vector<std::string>& av,
+                  const OnAccept& on_accept = nullptr)
 {
     std::vector<const char*> a{ "prog" };
     for (auto& s : av)
@@ -686,7 +699,10 @@ inline Res run_on(nitro::options::parser& p, const Decl& D, const std::vector<st
     try
     {
         auto args = p.parse(static_cast<int>(a.size()), a.data());
-        return snapshot(D, args);
+        auto snap = snapshot(D, args);
+        if (on_accept)
+            on_accept(args, snap);
+        return snap;
     }
     catch (nitro::options::parsing_error&)
     {
@@ -707,12 +723,13 @@ inline Res run_on(nitro::options::parser& p, const Decl& D, const std::vector<st
     return r;
 }
 
-inline Res impl(const Decl& D, const std::vector<std::string>& av, const Env& env)
+inline Res impl(const Decl& D, const std::vector<std::string>& av, const Env& env,
+                const OnAccept& on_accept = nullptr)
 {
     apply_env(D, env);
     nitro::options::parser p;
     build(p, D);
-    return run_on(p, D, av);
+    return run_on(p, D, av, on_accept);
 }
 
 // ---------------------------------------------------------------------------------------------
